@@ -3,17 +3,20 @@ import Acra.Drv.FTI2
 import Acra.Drv.Float
 import Acra.Drv.Search
 import Acra.Drv.Mpeg
+import Acra.Drv.Ch10
 namespace Acra.Drv
 def allCodecs : List Codec := List.flatten [
   ftiCodecs,
   fti2Codecs,
-  Mpeg.mpegCodecs
+  Mpeg.mpegCodecs,
+  ch10Codecs
 ]
 def allFuncs : List Func := List.flatten [
   ftiFuncs,
   fti2Funcs,
   floatFuncs,
   searchFuncs,
-  Mpeg.mpegFuncs
+  Mpeg.mpegFuncs,
+  ch10Funcs
 ]
 end Acra.Drv
